@@ -483,6 +483,9 @@ func (c *fctx) rangeStmt() []*S {
 		if mut != nil {
 			mut.ID = c.g.id()
 			pos := r.Intn(len(inner) + 1)
+			if strings.HasPrefix(mut.Src, "put") {
+				pos = 0 // the only use of the closure: keep it live (never behind a jump of the body)
+			}
 			inner = append(inner[:pos:pos], append([]*S{mut}, inner[pos:]...)...)
 		}
 	}
